@@ -127,15 +127,20 @@ func (backupManager *BackupManager) DoNativeBackup() error {
 		return err
 	}
 	backupFilename := backupManager.backupLocation + string(os.PathSeparator) + "datahub-backup.kv"
-	var file *os.File
-	if backupManager.fileExists(backupFilename) {
-		file, _ = os.Open(backupFilename)
-	} else {
-		file, _ = os.Create(backupFilename)
+	// append the incremental dump to an existing backup file
+	file, err := os.OpenFile(backupFilename, os.O_APPEND|os.O_WRONLY|os.O_CREATE, 0o600)
+	if err != nil {
+		return err
 	}
 	defer file.Close()
-	since, _ := backupManager.store.database.Backup(file, backupManager.lastID)
-	backupManager.lastID = since
+	since, err := backupManager.store.database.Backup(file, backupManager.lastID)
+	if err != nil {
+		return err
+	}
+	// never move the cursor backwards (nothing dumped reports version 0)
+	if since > backupManager.lastID {
+		backupManager.lastID = since
+	}
 
 	// store last id
 	return backupManager.StoreLastID()
@@ -153,7 +158,7 @@ func (backupManager *BackupManager) StoreLastID() error {
 }
 
 func (backupManager *BackupManager) LoadLastID() (uint64, error) {
-	lastIDFilename := backupManager.backupLocation + string(os.PathSeparator) + "datahub-backupManager.lastseen"
+	lastIDFilename := backupManager.backupLocation + string(os.PathSeparator) + "datahub-backup.lastseen"
 	file, err := os.Open(lastIDFilename)
 	if err != nil {
 		return 0, nil
